@@ -300,8 +300,9 @@ theorem tie_exactCompareDistanceS (x y : IV3) (r : Int) :
   obtain ⟨e1, e2⟩ := ecd_algebra BigF.S H r (x.dot y) (x.norm2 * y.norm2) scale_eq
   rw [e1, e2, sgn_mul_pos _ _ H_pos, sgn_mul_pos _ _ (Int.mul_pos H_pos H_pos)]
 
-/-- `CompareDistance` passes `big.NewFloat(float64(r))`; the model guards the non-finite case (big.NewFloat panics on
-    NaN; for r = +Inf the cos triage always decides, see DELIVER) -/
+/-- `CompareDistance` passes `big.NewFloat(float64(r))`; the tie is for finite r (big.NewFloat panics on NaN; for
+    r = ±Inf — reached since repair D54 made the cos triage answer 0 there — the hand model follows big.Float's infinity
+    arithmetic, which `BigF` does not represent: checked by the correspondence runs, op `c02cmpr` with r = +Inf) -/
 theorem tie_exactCompareDistance (x y : V3) (r2 : F64) (h : r2.isFinite = true) :
     Pred.exactCompareDistance x y r2 =
       PredFns.exactCompareDistance (PredFns.PreciseVectorFromVector x) (PredFns.PreciseVectorFromVector y) (BigF.ofF64 r2) := by
@@ -334,8 +335,7 @@ theorem tie_fmaSites_zero :
 theorem tie_fmaSites_nonzero :
     (PredFns.cosDistance_fmaSites, PredFns.sin2Distance_fmaSites, PredFns.triageCompareCosDistance_fmaSites, PredFns.triageCompareSin2Distance_fmaSites) = (1, 2, 1, 1) := by decide
 
-/-- the same for every chord angle on which the cos triage answers (in particular r = ±Inf, where `exactCompareDistance`
-    is never reached) -/
+/-- the same for every chord angle on which the cos triage answers -/
 theorem tie_CompareDistance_of_triage (x y : V3) (r : F64) (h : PredFns.triageCompareCosDistance x y r ≠ 0) :
     Pred.compareDistance x y r = PredFns.CompareDistance x y r := by
   rw [tie_CompareDistance_float]
